@@ -115,7 +115,7 @@ def run_schedule(X, W, a, b, index, profile=False):
         fn = frame.f_code.co_filename
         if not fn.startswith(LIB):
             return None
-        islazy = frame.f_code.co_name in LAZY
+        islazy = frame.f_code.co_name in LAZY or (os.sep + 'xsd' + os.sep) in fn
         if islazy:
             lazy_stack[0] += 1
 
